@@ -177,12 +177,17 @@ func TestCheck(t *testing.T) {
 		judged := demonstrateClasses(r, m, ab)
 		explore(r, m, ab, judged)
 
-		r.Require(r.Counter("objects") >= int64(r.N(60000, 2000000)), "not every generated object was evaluated")
-		r.Require(r.Counter("accepted") >= int64(r.N(15000, 500000)), "too few accepted objects (soundness part would be vacuous)")
-		r.Require(r.Counter("rejected") >= int64(r.N(15000, 500000)), "too few rejected objects")
+		r.Require(r.Counter("objects") >= int64(r.N(40000, 1500000)), "not every generated object was evaluated")
+		r.Require(r.Counter("accepted") >= int64(r.N(10000, 350000)), "too few accepted objects (soundness part would be vacuous)")
+		r.Require(r.Counter("rejected") >= int64(r.N(10000, 350000)), "too few rejected objects")
 		r.Require(r.Counter("gateway_applies") >= int64(r.N(30000, 1000000)) && r.Counter("limiter_applies") >= int64(r.N(20000, 600000)), "too few applications to the consumers")
 		r.Require(r.Counter("limiter_reports") >= int64(r.N(5000, 150000)), "too few honest reports reached the limiter")
 		r.Require(len(judged) >= 5, "fewer than 5 breaking classes could be demonstrated")
+		for _, k := range []string{"lifecycle_gateway-create-beside-other", "lifecycle_gateway-redeliver", "lifecycle_gateway-delete", "lifecycle_gateway-recreate"} {
+			r.Require(r.Counter(k) >= int64(r.N(5000, 150000)), "life-cycle step hardly observed: "+k)
+		}
+		r.Require(r.Counter("limiter_lifecycles_with_two_reporting_instances") >= int64(r.N(1200, 40000)), "too few limiter delete/re-create cycles with two reporting instances")
+		r.Require(r.Counter("boundary_objects_accepted") >= int64(r.N(1500, 40000)), "too few accepted objects with boundary names / strings (long, non-ASCII, ':' '/' '%', case variants)")
 	})
 }
 
@@ -246,7 +251,7 @@ func firstClass(o *proxyv1alpha1.UpstreamCluster, judged map[string]bool) string
 }
 
 func explore(r *vkit.R, m *material, ab *admissionBed, judged map[string]bool) {
-	n := r.N(60000, 2000000)
+	n := r.N(40000, 1500000)
 	var mu sync.Mutex
 	classMembers := map[string]int{}
 	classRejected := map[string]int{}
@@ -334,6 +339,9 @@ func explore(r *vkit.R, m *material, ab *admissionBed, judged map[string]bool) {
 			return
 		}
 		r.Count("accepted", 1)
+		if hasBoundaryStrings(adm) {
+			r.Count("boundary_objects_accepted", 1)
+		}
 
 		// Members of a breaking class that has already been shown to be accepted AND to break the consumers 300 times are
 		// not applied again: on a defective tree every such application leaks the half-built cluster's goroutines
@@ -357,7 +365,7 @@ func explore(r *vkit.R, m *material, ab *admissionBed, judged map[string]bool) {
 		gc, _ := applyGateway(adm, nil)
 		outs = append(outs, gc)
 		r.Count("gateway_applies", 1)
-		lc, reports, _ := applyLimiter(adm, nil)
+		lc, reports, _ := applyLimiterAs(adm, nil, g.Intn(len(instances)), false)
 		outs = append(outs, lc...)
 		r.Count("limiter_applies", 1)
 		r.Count("limiter_reports", reports)
@@ -390,6 +398,33 @@ func explore(r *vkit.R, m *material, ab *admissionBed, judged map[string]bool) {
 				}
 			} else {
 				r.Count("update_partner_unusable", 1)
+			}
+		}
+
+		// life cycle around the plain create (half of the cleanly applied objects): created on a gateway that already holds the
+		// cluster validation knew about, delivered again unchanged, deleted, created again under the same name; on the
+		// limiter: applied, deleted, applied again, then two gateway instances (identities with ':' '/' '%', upper case,
+		// non-ASCII, 250+ characters) report
+		if allClean(outs) && cls == "" && g.Intn(5) < 2 {
+			lo, harness := applyGatewayLifecycle(adm)
+			if harness != "" {
+				r.Inconclusive("harness: " + harness)
+			}
+			outs = append(outs, lo...)
+			r.Count("gateway_lifecycles", 1)
+			r.Count("gateway_applies", len(lo))
+			for _, x := range lo {
+				if x.clean() {
+					r.Count("lifecycle_"+x.Consumer, 1)
+				}
+			}
+			ll, n, _ := applyLimiterAs(adm, nil, g.Intn(len(instances)), true)
+			outs = append(outs, ll...)
+			r.Count("limiter_lifecycles", 1)
+			r.Count("limiter_applies", 2)
+			r.Count("limiter_reports", n)
+			if n > 0 {
+				r.Count("limiter_lifecycles_with_two_reporting_instances", 1)
 			}
 		}
 
